@@ -40,6 +40,11 @@ def format_float(number: float, significant_figures: int = 3) -> str:
     Scientific notation is never used for large values. Significant digits
     before the decimal point are never dropped.
     """
+    if not math.isfinite(number):
+        # Numbers written with more digits than a float can hold (e.g. a 400
+        # digit decimal) are read as infinity; there are no digits to show.
+        return str(number)
+
     fractional, integer = math.modf(number)
     integer_str = f"{integer:.0f}"
 
